@@ -35,6 +35,7 @@ EXPLANATION = (
   + common.SHARED_CLAUSES['truthy']
   + " (FIN-cacheskip) ISD.from_model, interpreted with and without a SignificantTimes object (_process_element replaced by a recorder), processes the same regions for every offset inside a cached document's content interval - offsets after the last significant time included - and skips a document only outside that interval;"
   + " (COVER-regions) ISD.significant_times, interpreted with the per-region clone and the collector replaced by recorders, gives every region of the document - whatever it specifies, display=none included - its own single-region document and lets the collector visit that region and the body;"
+  + " (PRUNE-sites) every `return None` of ISD._process_element is one of the grounds for leaving an element out of a snapshot (inactive, another region, display=none, the final emptiness rule) or anticipates the final rule, and every `return <element>` comes after the activity test and the region test: nothing inactive and nothing of another region is handed to the snapshot and to the cues;"
 )
 RULE_TEXT = "per mutator call / mutating call argument, per copy_to variant x field, per early return, per module-level store"
 UNDECIDED = ["equality of cached and uncached results over all documents and times", "equality of repeated calls as values",
@@ -104,6 +105,39 @@ def check_copy_to(ctx):
     ctx.check(not missing, "DSP-copy", f"{q}|copies {sorted(need)}", ctx.where(f.module, f.node), f"calls {sorted(calls)} on `{dest}`",
               f"{f.short} does not copy {sorted(missing)}: a per-region clone of the document loses that information and snapshots taken with "
               "the significant-times cache differ from those taken without it")
+  # ContentDocument.copy_to interpreted on a sample document: every initial value arrives at the destination, also one that restates
+  # the property's default (an explicit initial tts:position overrides tts:origin, an absent one does not)
+  from ..consteval import NotConst as _NC, Raised as _R
+  from ..rules.minieval import MiniEval, Node
+  cd = ix.func("ttconv.model:ContentDocument.copy_to")
+  sp_ = ix.cls("ttconv.style_properties:StyleProperties")
+  props_ = [sp_.nested[k_] for k_ in ("Color", "Position", "Display", "FontSize", "Opacity") if k_ in sp_.nested]
+  values_ = []
+  for pc_ in props_:
+    try:
+      values_.append((pc_, MiniEval(ix).call(pc_.methods["make_initial_value"], [])))
+    except (_NC, _R, KeyError):
+      pass
+  values_.append((sp_.nested.get("LineHeight"), "custom"))
+  src_ = Node("ContentDocument", "src", (), initial_values=list(values_))
+  dst_ = Node("ContentDocument", "dst", ())
+  put_ = []
+  methods_ = {"iter_initial_values": lambda n_: list(n_.fields.get("initial_values", [])), "put_initial_value": lambda n_, p_, v_: put_.append((getattr(p_, "name", p_), v_)),
+              "get_active_area": lambda n_: None, "get_cell_resolution": lambda n_: None, "get_display_aspect_ratio": lambda n_: None, "get_lang": lambda n_: "", "get_px_resolution": lambda n_: None,
+              "has_initial_value": lambda n_, p_: False, "get_initial_value": lambda n_, p_: None,
+              "set_active_area": lambda n_, v_: None, "set_cell_resolution": lambda n_, v_: None, "set_display_aspect_ratio": lambda n_, v_: None, "set_lang": lambda n_, v_: None,
+              "set_px_resolution": lambda n_, v_: None}
+  key_ = f"{cd.qualname}|every initial value is copied"
+  try:
+    MiniEval(ix, node_methods=methods_, node_classes={"ContentDocument": ix.cls("ttconv.model:ContentDocument")}).call(cd, [src_, dst_])
+    want_ = [(getattr(p_, "name", p_), v_) for p_, v_ in values_]
+    ctx.check(put_ == want_, "DSP-copy", key_, ctx.where(cd.module, cd.node), f"interpreted on a sample document with {len(want_)} initial values (defaults restated included)",
+              f"interpreted on a sample document whose initial values are {[k_ for k_, _v in want_]} (the first ones restating the TTML defaults), copy_to puts {[k_ for k_, _v in put_]} on the destination: "
+              "a per-region clone loses initial values the document sets - an explicit initial tts:position, even 0% 0%, overrides tts:origin, so cached and uncached snapshots place regions differently")
+  except _R:
+    ctx.bad("DSP-copy", key_, ctx.where(cd.module, cd.node), "interpreted on a sample document, ContentDocument.copy_to raises")
+  except _NC as ex_:
+    ctx.undecide("DSP-copy", f"{cd.qualname}: not in the interpreted subset ({ex_})")
   # the clone uses copy_to for documents, regions and elements and restores region references
   cl = ix.func("ttconv.isd:_clone_doc_with_one_region")
   txt = unparse(cl.node)
@@ -187,6 +221,8 @@ def check_no_shared_state(ctx, fs):
 
 
 def run(ctx):
+  from ..rules import isdrules as _isdr5
+  ctx.floor("PRUNE-sites", "return sites of _process_element", _isdr5.check_prune_sites(ctx, ctx.ix.func("ttconv.isd:ISD._process_element")), 6)
   from ..rules import isdrules as _isdr3
   ctx.floor("COVER-regions", "sample documents decided", _isdr3.check_region_docs_cover(ctx), 3)
   from ..rules import isdrules as _isdr2
